@@ -875,6 +875,14 @@ func analyzeFree(fc freeCase, res *freeResult) {
 				h.In.Tol = true
 			}
 		}
+		// [Call, Ret] of a Read is the Open; the bytes are read afterwards. When a
+		// successful Delete overlapped the handle phase, the handle is the handle of
+		// a deleted blob (it may even switch to the disk file of a later generation
+		// of the key): what it returned says nothing about the state at the Open.
+		if h.In.Kind == opRead && h.Out.Res == rOK && h.Out.Gen != 0 && h.ReadEnd > h.Ret && deleted(h.In.Key, h.Call, h.ReadEnd) {
+			h.Note += fmt.Sprintf(" (returned generation %d; not judged: a Delete overlapped the handle)", h.Out.Gen)
+			h.Out.Gen = 0
+		}
 	}
 	for _, h := range hist {
 		switch h.In.Kind {
